@@ -81,6 +81,14 @@ structure State where
   acked : List Nat := []        -- labels of the entries whose `InsertRaw` has returned
   files : List File := []       -- table directory, newest first (names carry the creation time)
   offFile : Nat := 0            -- the `offset` file (0 = absent)
+  -- configuration (fixed for the life of the directory): offsets are kept in maps keyed by a
+  -- source id.  `tagSrc` = the source the WAL reader tags every entry with (insert.go
+  -- `processWALInserts`: `&walRead{data, t.wal.Offset(), 0}`), hence the key under which the
+  -- memstore, the file header and the offset file store the table's offset; `lookSrc` = the key
+  -- `CreateTable` uses to find the offset to resume from (`offsetsBySource[0]`).  Nothing else
+  -- of DBOpts (ID, WAL sizes, memory ratio, clock) enters the protocol.
+  tagSrc : Nat := 0
+  lookSrc : Nat := 0
   -- volatile
   up : Bool := false
   cur : File := File.empty      -- `rs.fileStore`
@@ -94,6 +102,9 @@ structure State where
   deriving Repr, DecidableEq, Inhabited
 
 def State.init : State := {}
+
+/-- empty directory of a database whose code tags with `tag` and looks up under `look` -/
+def State.initCfg (tag look : Nat) : State := { tagSrc := tag, lookSrc := look }
 
 /-- what a query with `includeMemStore = true` sees -/
 def State.content (s : State) : List App := s.cur.apps ++ s.mem
@@ -119,7 +130,8 @@ inductive Event where
 
 /-- process kill: the durable part survives, everything else is gone -/
 def crashF (s : State) : State :=
-  { wal := s.wal, acked := s.acked, files := s.files, offFile := s.offFile }
+  { wal := s.wal, acked := s.acked, files := s.files, offFile := s.offFile,
+    tagSrc := s.tagSrc, lookSrc := s.lookSrc }
 
 /-- `openRowStore`'s loop over the directory listing, newest first: an unreadable file is
     removed and the next one tried.  Returns the chosen file (if any) and the remaining files. -/
@@ -133,13 +145,20 @@ def startPos (s : State) : Nat :=
   | some f => max f.pos s.offFile       -- `newOffsetsBySource.Advance(offsetsBySource)`
   | none => s.offFile
 
-/-- `openRowStore` + `processInserts`' fresh memstore + `NewReader(start)` -/
+/-- the position the WAL reader really resumes from: `offsetsBySource[lookSrc]` — the persisted
+    offset when it is looked up under the key it was stored under, the nil offset (= the
+    beginning of the WAL) otherwise -/
+def readPos (s : State) : Nat := if s.lookSrc = s.tagSrc then startPos s else 0
+
+/-- `openRowStore` + `processInserts`' fresh memstore (it starts from the whole persisted
+    offsets map) + `NewReader(offsetsBySource[lookSrc])` -/
 def reopenF (s : State) : State :=
   let (f, files) := pickFile s.files
   let start := startPos s
   { wal := s.wal, acked := s.acked, files := files, offFile := s.offFile,
+    tagSrc := s.tagSrc, lookSrc := s.lookSrc,
     up := true, cur := f.getD File.empty, mem := [], memPos := start, offChanged := false,
-    rd := start, pend := 0, phase := .idle, flushCount := 0 }
+    rd := readPos s, pend := 0, phase := .idle, flushCount := 0 }
 
 /-- hand the rest of one entry to the row store (all remaining `rowStore.insert`s / the skip) -/
 def ingestEntry (s : State) (e : Entry) : State :=
@@ -227,7 +246,7 @@ def step (s : State) : Event → Option State
     -- `removeOldFiles` never touches the two newest filestore files
     if s.up && 2 ≤ i && i < s.files.length then some { s with files := s.files.eraseIdx i } else none
   | .crash => if s.up then some (crashF s) else none
-  | .reopen start => if !s.up && startPos s = start then some (reopenF s) else none
+  | .reopen start => if !s.up && readPos s = start then some (reopenF s) else none
   | .catchUp => if s.up && s.phase = .idle then some (catchUpF s) else none
 
 /-- run an event list; also reports how many events were accepted -/
@@ -265,12 +284,12 @@ def closeEvents (s : State) : List Event :=
 
 /-- states reachable from the empty directory by any event list (any number of crashes) -/
 inductive Reachable : State → Prop where
-  | init : Reachable State.init
+  | init (src : Nat) : Reachable (State.initCfg src src)
   | step {s s' : State} {e : Event} : Reachable s → step s e = some s' → Reachable s'
 
 /-- the same, over executions in which no flush starts between two `rowStore.insert`s of one entry -/
 inductive ReachableA : State → Prop where
-  | init : ReachableA State.init
+  | init (src : Nat) : ReachableA (State.initCfg src src)
   | step {s s' : State} {e : Event} : ReachableA s → stepA s e = some s' → ReachableA s'
 
 /-- kill the process now, restart on the same directory, let ingestion catch up -/
